@@ -192,6 +192,13 @@ def ev(t: Sym, env: Dict[Any, Any]) -> Any:
                 return getattr(_re, name.split(".")[-1])(*args, **kw)
             except (TypeError, ValueError, _re.error) as e:
                 raise Unknown(f"{name}: {e}")
+        if t[1][0] == "a" and t[1][2] in ("is_integer", "hex", "as_integer_ratio", "bit_length", "conjugate") and not t[2] and not t[3]:
+            try:
+                recv = ev(t[1][1], env)
+            except Unknown:
+                recv = None
+            if isinstance(recv, (int, float)) and not isinstance(recv, bool) and hasattr(recv, t[1][2]):
+                return getattr(recv, t[1][2])()
         if name in ("timedelta", "datetime.timedelta"):
             import datetime as _dt
             try:
